@@ -779,3 +779,61 @@ def c16(run):
               stdin_content="chuge", failing_stdout=True)
     run.assumptions += ["a closed reader is produced deterministically: the read end is closed before xt starts, or after k bytes while > 64 KiB + 16 KiB of output remain"]
     run.exhaustive = True
+
+
+# ----------------------------------------------------------------------------- C17
+
+def c17(run):
+    import subprocess
+    run.rule = ("each case = one YAML run of the real code (generated, mutated, re-encoded and large multi-byte inputs; slice / reader with several read sizes; explicit and "
+                "detected, i.e. with detection's early drop of its chunker; reader errors at random offsets; readers over-reporting by 1..17 and 100000 bytes from various read "
+                "calls on; the chunker alone dropped after 0-2 documents) recorded as the sequence of parser / read-state / event lifecycle events, read-handler entries and "
+                "copies and chunk cuts; TLC validates each sequence against XtChunker with its invariants checked at every step")
+    mc = run_tlc("XtChunker.tla", "MC_XtChunker.cfg", workers=8)
+    check_vacuity(mc, ["ParserNew", "HandlerEnter", "HandlerCopy", "HandlerError", "HandlerOverReport", "ParseOk", "ParseFail", "Arm", "EventDrop", "ChunkerDrop", "ParserDelete", "ReadStateFree"])
+    run.add_mc(mc, "XtChunker: NoUseAfterFree, FreeOrder, EventsPaired, CopyWithinBuffers, CutsWithinCapture, NoLeakAtEnd for every interleaving of reader outcomes, parse errors and early drops")
+    common.build_harness()
+    path = os.path.join(WORK, "trace_C17_%s.ndjson" % run.tier)
+    p = common.sh([common.XTV, "record-chunker", path, str(_q(run, 25, 600))], timeout=3000, cwd=WORK)
+    out = p.stdout.decode("utf-8", "replace")
+    summ = None
+    for line in out.split("\n"):
+        if line.startswith("XTV-SUMMARY "):
+            summ = json.loads(line[len("XTV-SUMMARY "):])
+    if summ is None:
+        # the recorder itself died: a memory fault in the code under test is the likeliest cause
+        run.violation("the YAML recorder process died (status %s) while driving the parser binding: %s" % (p.returncode, p.stderr.decode("utf-8", "replace")[-300:]),
+                      {"kind": "recorder-crash", "status": p.returncode})
+        run.evaluations += 2
+        run.nontrivial += 2
+        run.samples.append({"note": "recorder crashed"})
+        return
+    run.add_harness(summ, "YAML runs recorded at the parser binding")
+    cur = path
+    n = 0
+    while True:
+        r = common.validate_trace("Trace_XtChunker.tla", "Trace_XtChunker.cfg", cur, tag="XtChunker-C17")
+        if r["violated"]:
+            run.violation("invariant %s of XtChunker violated on a recorded run" % r["violated"], {"kind": "xtchunker-trace", "tlc": r["out"][-2500:]})
+            break
+        if r["accepted"] or n >= 6:
+            break
+        n += 1
+        info = json.loads(common.tlc_printed(r["out"], "REJECTJSON")[0])
+        lines = read_lines(cur)
+        start = info["line"]
+        while start > 1 and '"ev":"run"' not in lines[start - 1]:
+            start -= 1
+        end = info["line"]
+        while end < len(lines) and '"ev":"run"' not in lines[end]:
+            end += 1
+        head = json.loads(lines[start - 1])
+        ctx = [json.loads(x) for x in lines[max(start - 1, info["line"] - 8):info["line"]]]
+        run.violation("recorded YAML run '%s' is not a behaviour of XtChunker at event %d: %s" % (head.get("label"), info["line"] - start, json.dumps(info["rec"])),
+                      {"kind": "xtchunker-trace", "run": head, "rejected_event": info["rec"], "preceding_events": ctx})
+        nxt = path + ".cut%d" % n
+        write_lines(nxt, lines[:start - 1] + lines[end:])
+        cur = nxt
+    run.add_traces(summ["evaluations"], r, "lifecycle, read-handler and cut events of real YAML runs")
+    run.assumptions += ["protocol level only: what crosses the binding (pairing, order, bounds of copies and cuts); accesses inside unsafe-libyaml are outside the specification",
+                        "libyaml's marks lie within the bytes it has been given (checked on every recorded cut)"]
